@@ -597,48 +597,60 @@ def _child_main():
       # the second SIGINT arrived when no test was registered any more (default
       # handler): it hit this harness, not openhtf
       info['sigint_after_all_tests_ended'] = True
-  viol = []
-  c = {'two_test_sigint_runs': 1 if info.get('both_running') else 0,
-       'callback_calls_judged': 0,
-       'sigints_sent': info.get('sigints', 0),
-       'second_sigint_inside_first_handler':
-           1 if info.get('second_inside_first_handler') else 0,
-       'second_sigint_while_first_test_tearing_down':
-           1 if info.get('second_while_a_running') and info.get('a_in_teardown') else 0}
-  ctx = {'case': case, 'info': info, 'ends': ends}
+  def judge():
+    viol = []
+    c = {'two_test_sigint_runs': 1 if info.get('both_running') else 0,
+         'callback_calls_judged': 0,
+         'sigints_sent': info.get('sigints', 0),
+         'second_sigint_inside_first_handler':
+             1 if info.get('second_inside_first_handler') else 0,
+         'second_sigint_while_first_test_tearing_down':
+             1 if info.get('second_while_a_running') and info.get('a_in_teardown') else 0}
+    ctx = {'case': case, 'info': info, 'ends': ends}
 
-  def bad(mech, **d):
-    viol.append({'mechanism': mech, 'detail': dict(ctx, **d)})
+    def bad(mech, **d):
+      viol.append({'mechanism': mech, 'detail': dict(ctx, **d)})
 
-  for key in ('a', 'b') if info.get('sigints') else ():
-    end = ends.get(key)
-    if end is None:
-      bad('execute-did-not-return', test=key)
-      continue
-    if end[0] == 'raised':
-      bad('execute-raised:%s' % end[1], test=key, text=end[2])
-    calls = seen[key]
-    c['callback_calls_judged'] += len(calls)
-    if len(calls) != 1:
-      bad('callback-called-%d-times' % len(calls), test=key)
-      continue
-    r = calls[0]
-    if r['outcome'] is None or r['end'] is None:
-      bad('record-not-final-in-callback', test=key, outcome=r['outcome'], end=r['end'])
-    elif r['phases_unfinished']:
-      bad('phase-record-incomplete', test=key, phases=r['phases_unfinished'])
-    elif r['outcome'] != 'ABORTED':
-      bad('aborted-run-not-ABORTED', test=key, outcome=r['outcome'],
-          phases=r['phases'])
-    elif end[0] == 'returned' and end[1] != (r['outcome'] == 'PASS'):
-      bad('return-value-differs-from-outcome', test=key, outcome=r['outcome'])
-  if H.Test.TEST_INSTANCES:
-    bad('still-registered-for-sigint', n=len(H.Test.TEST_INSTANCES))
-  if not info.get('sigints'):
-    c['harness_errors'] = 1      # the schedule could not be set up: no verdict
-  res = {'sig': ['two_sigint', case['second'], case['gap_ms'], case['td_s'],
-                 case.get('order'), case.get('b_td_s')],
-         'violations': viol[:4], 'counters': c}
+    for key in ('a', 'b') if info.get('sigints') else ():
+      end = ends.get(key)
+      if end is None:
+        bad('execute-did-not-return', test=key)
+        continue
+      if end[0] == 'raised':
+        bad('execute-raised:%s' % end[1], test=key, text=end[2])
+      calls = seen[key]
+      c['callback_calls_judged'] += len(calls)
+      if len(calls) != 1:
+        bad('callback-called-%d-times' % len(calls), test=key)
+        continue
+      r = calls[0]
+      if r['outcome'] is None or r['end'] is None:
+        bad('record-not-final-in-callback', test=key, outcome=r['outcome'], end=r['end'])
+      elif r['phases_unfinished']:
+        bad('phase-record-incomplete', test=key, phases=r['phases_unfinished'])
+      elif r['outcome'] != 'ABORTED':
+        bad('aborted-run-not-ABORTED', test=key, outcome=r['outcome'],
+            phases=r['phases'])
+      elif end[0] == 'returned' and end[1] != (r['outcome'] == 'PASS'):
+        bad('return-value-differs-from-outcome', test=key, outcome=r['outcome'])
+    if H.Test.TEST_INSTANCES:
+      bad('still-registered-for-sigint', n=len(H.Test.TEST_INSTANCES))
+    if not info.get('sigints'):
+      c['harness_errors'] = 1      # the schedule could not be set up: no verdict
+    res = {'sig': ['two_sigint', case['second'], case['gap_ms'], case['td_s'],
+                   case.get('order'), case.get('b_td_s')],
+           'violations': viol[:4], 'counters': c}
+    return res
+
+  res = None
+  for _ in range(4):
+    try:
+      res = judge()
+      break
+    except KeyboardInterrupt:
+      # a SIGINT whose Python handler CPython ran only now, with no test
+      # registered any more (default handler): it hit the harness
+      info['sigint_after_all_tests_ended'] = True
   print('RESULT ' + json.dumps(res, default=repr), flush=True)
   sys.stdout.flush()
   os._exit(0)
